@@ -18,12 +18,11 @@ func libFrame(ln string) string {
 		return ""
 	}
 	name := t[i+len(mod):]
-	if j := strings.Index(name, " "); j >= 0 { // "in goroutine 7" etc.
-		name = name[:j]
-	}
-	if strings.HasSuffix(name, ")") {
-		if j := strings.LastIndex(name, "("); j > 0 {
-			name = name[:j]
+	// cut the argument list: the first "(" that does not open a receiver ("pkg.(*T).M")
+	for k := 0; k < len(name); k++ {
+		if name[k] == ' ' || (name[k] == '(' && k > 0 && name[k-1] != '.') {
+			name = name[:k]
+			break
 		}
 	}
 	return name
@@ -57,6 +56,22 @@ func FatalClass(stderr string) (class, first string) {
 		}
 	}
 	site := "unknown"
+	if kind == "stack-overflow" {
+		// the top of an overflowing stack is arbitrary: name the recursion by its most frequent frame
+		count := map[string]int{}
+		for _, ln := range strings.Split(stderr, "\n") {
+			if f := libFrame(ln); f != "" {
+				count[f]++
+			}
+		}
+		best := 0
+		for f, n := range count {
+			if n > best || (n == best && f < site) {
+				site, best = f, n
+			}
+		}
+		return "fatal:" + kind + "@" + site, first
+	}
 	for _, ln := range strings.Split(stderr, "\n") {
 		if f := libFrame(ln); f != "" {
 			site = f
